@@ -6,8 +6,9 @@ ImathColorAlgo.h 35-262, statement by statement, generic over the scalar.
   textual copies in the .cpp; BOTH are modelled (`…V3`, `…C4`).
   `int (std::floor (hue))` is the parameter `floorInt : α → Int`.
 * the templated wrappers for integer element types: the element is mapped into
-  [0,1] by `scaleIn` (Vec3 copy: `x / double (max)`; Color4 copy: `x / float (max)`
-  — a float division widened to double) and back by `scaleOut` (`(T) (c * max)`).
+  [0,1] by `scaleIn` (`x / double (max)` in both the Vec3 and the Color4 copies since /repo
+  commit 9e7d4a2; before it the Color4 copies divided by `float (max)`) and back by `scaleOut`
+  (`(T) (c * max)`).
   Both are parameters so that the driver can execute the real float/double
   arithmetic and the theorems can state the exact-arithmetic meaning.
 * `rgb2packed` / `packed2rgb` for floating and for integer element types.
@@ -113,8 +114,7 @@ def rgb2hsvC4 (c : C4 α) : C4 α :=
 
 /-! ### templated wrappers, integer element types (ColorAlgo.h 48-161)
 
-`scaleIn n` is `n / double (max)` (Vec3 copies) or `n / float (max)` (Color4
-copies, as the source stands); `scaleOut c` is `(T) (c * max)`. -/
+`scaleIn n` is `n / double (max)` (all four wrappers); `scaleOut c` is `(T) (c * max)`. -/
 
 def hsv2rgbV3I (floorInt : α → Int) (scaleIn : Int → α) (scaleOut : α → Int) (hsv : V3 Int) : V3 Int :=
   let v : V3 α := ⟨scaleIn hsv.x, scaleIn hsv.y, scaleIn hsv.z⟩
